@@ -43,6 +43,7 @@ fn spawn_worker() -> Sender<(Job, Arc<Done>)> {
     std::thread::Builder::new()
         .stack_size(crate::exec::TASK_STACK)
         .spawn(move || {
+            crate::guard::thread_altstack();
             while let Ok((job, done)) = rx.recv() {
                 // jobs catch their own panics; a stray one must not kill the pool thread silently
                 let _ = std::panic::catch_unwind(std::panic::AssertUnwindSafe(job));
